@@ -470,3 +470,51 @@ def plane_history(case, ctx):
     ctx.tag(case["cls"], "forms:" + case["forms"], f"multiplies:{min(n_mul, 5)}",
             *sorted({"edit:" + d for d in done if not d.startswith("x@")}))
     ctx.nontrivial_if(edited_between and n_mul >= 2)
+
+
+# --- planes of more than a million samples ------------------------------------------------------------------
+
+@st.composite
+def mega_plane_case(draw, tier="quick"):
+    return {"shape": list(draw(gen.mega_shape())), "seed": draw(st.integers(0, 2**31 - 1)),
+            "segmented": draw(st.booleans()), "cls": draw(st.sampled_from(["Plane", "Pupil"])),
+            "weight": draw(st.sampled_from([1, 0.25, -1.5]))}
+
+
+@hyp("C07", "mega", lambda tier: mega_plane_case(tier),
+     "planes of more than 2^20 samples (monolithic or two segments): field = amplitude*exp(2 pi i opd/lambda) inside "
+     "the mask, intensity = |field|^2, insert adds weight*intensity", examples=(3, 12), budget_s=(150, 700))
+def mega(case, ctx):
+    m, n = case["shape"]
+    rng = np.random.default_rng(case["seed"])
+    wl = 1e-6
+    amp = rng.uniform(0.2, 1.0, size=(m, n))
+    amp[:, : n // 60] = 0
+    opd = rng.normal(size=(m, n)) * 0.1 * wl
+    sup = amp != 0
+    if case["segmented"]:
+        top = np.zeros((m, n), dtype=int)
+        top[: m // 2 + 3] = 1
+        mask = np.stack([top * sup, (1 - top) * sup])
+    else:
+        mask = sup.astype(int)
+    ctx.tag("mega", "segmented" if case["segmented"] else "monolithic", case["cls"])
+    ctx.nontrivial_if(True)
+    kw = dict(amplitude=amp.copy(), opd=opd.copy(), mask=mask.copy(), pixelscale=1e-3)
+    with lentil_call("C07.mega", f"{case['cls']} {m}x{n} multiply"):
+        p = lentil.Pupil(focal_length=3.0, **kw) if case["cls"] == "Pupil" else lentil.Plane(**kw)
+        w = lentil.Wavefront(wl) * p
+        got, inten = w.field, w.intensity
+    exp = np.where(sup, amp * np.exp(2j * np.pi * opd / wl), 0)
+    if got.shape != exp.shape or cm.max_abs(got - exp) > 1e-13:
+        bad = np.argwhere(np.abs(got - exp) > 1e-13) if got.shape == exp.shape else []
+        raise Violation("C07.mega.field", f"field of a {m}x{n} plane differs from amplitude*exp(2 pi i opd/lambda) "
+                                          f"(first differing sample {bad[0].tolist() if len(bad) else got.shape})")
+    if cm.max_abs(inten - np.abs(exp) ** 2) > 1e-12:
+        raise Violation("C07.mega.intensity", "intensity != |field|^2")
+    out = np.full((m, n), 0.5)
+    with lentil_call("C07.mega.insert", "Wavefront.insert"):
+        ret = w.insert(out, weight=case["weight"])
+    if ret is not out or cm.max_abs(out - (0.5 + case["weight"] * np.abs(exp) ** 2)) > 1e-12:
+        raise Violation("C07.mega.insert", f"insert(weight={case['weight']}) into a {m}x{n} target differs from "
+                                           f"target + weight*intensity")
